@@ -1,0 +1,12 @@
+//go:build verif
+
+package crypto
+
+// Contracts for the deductive checks in /verif (read by /verif/govc; comment-only, no code).
+
+// sigOK(pk, msg, sig): the signature scheme accepts sig as pk's signature of msg. ASSUMED: VerifySignature is a
+// deterministic function of (key, message, signature) without side effects; unforgeability is not modelled.
+//@ spec func sigOK(pk PubKey, msg []byte, sig []byte) bool
+//@ extern PubKey.VerifySignature
+//@   assigns nothing
+//@   ensures det: result == sigOK(self, msg, sig)
